@@ -255,6 +255,10 @@ func checkCase(c Case, o *pbt.Rec) pbt.Verdict {
 	}
 	for _, fu := range c.Fields {
 		if got[fu.Key].String() != want[fu.Key].String() {
+			// is the result a function of the request at all?
+			if again := rig.AdmitNoRemap(c.Query, rawVars, ""); string(again.Request.Variables) != after {
+				return pbt.Bad("normalization is not deterministic: the same request first gave variables %s and then %s%s", after, again.Request.Variables, describe())
+			}
 			return known(&c, varsObj, lits, "normalized-value", pbt.Bad("after normalization the argument of %s denotes %s, want %s\nnormalized operation: %s\nvariables: %s%s",
 				fu.Key, got[fu.Key], want[fu.Key], opText, after, describe()))
 		}
